@@ -47,15 +47,16 @@ Proof. exact unguarded_torn. Qed.
 Print Assumptions unguarded_lookup_torn.
 
 (* The instance: the lock facts of the current source satisfy the discipline (RIB mutex before FIB mutex, every API
-   method of FibStrategyTree / FibStrategyHashTable / RibTable bracketed by its table's mutex in the right mode, no
-   result aliasing memory that is modified in place, face.Table only touches self-synchronising fields). *)
+   method of FibStrategyTree / FibStrategyHashTable / RibTable / mgmt.NlsrReadvertiser bracketed by its own mutex in the
+   right mode and released on every path, the readvertiser called under the RIB mutex and calling nothing back, no result
+   aliasing memory that is modified in place, face.Table only touches self-synchronising fields). *)
 Theorem lockfacts_ok : all_guarded gen_mu gen_rank gen_facts = true /\ forall m, gen_rank m <= gen_rank_bound.
 Proof.
   exact (conj (eq_refl : all_guarded gen_mu gen_rank gen_facts = true)
               (fun m => proj1 (Nat.leb_le (gen_rank m) gen_rank_bound)
                  (match m return (gen_rank m <=? gen_rank_bound) = true with
-                  | 0 => eq_refl | 1 => eq_refl | 2 => eq_refl | 3 => eq_refl
-                  | Datatypes.S (Datatypes.S (Datatypes.S (Datatypes.S _))) => eq_refl end))).
+                  | 0 => eq_refl | 1 => eq_refl | 2 => eq_refl | 3 => eq_refl | 4 => eq_refl
+                  | Datatypes.S (Datatypes.S (Datatypes.S (Datatypes.S (Datatypes.S _)))) => eq_refl end))).
 Qed.
 Print Assumptions lockfacts_ok.
 
@@ -94,7 +95,7 @@ Print Assumptions face_table_sequential.
 (* non-vacuity: the facts are there (a RIB writer nests the FIB write lock inside the RIB lock; a lookup takes the read lock) *)
 Example c16_example :
   (exists f, find_fact gen_facts "RibTable.AddEncRoute"%string = Some f /\
-             body_of gen_facts f = [Acq 2 true; Rd 2; Wr 2; Acq 1 true; Rd 1; Wr 1; Rel 1; Acq 0 true; Rd 0; Wr 0; Rel 0; Rel 2]) /\
+             body_of gen_facts f = [Acq 2 true; Rd 2; Wr 2; Acq 1 true; Rd 1; Wr 1; Rel 1; Acq 0 true; Rd 0; Wr 0; Rel 0; Acq 4 true; Rd 4; Wr 4; Rel 4; Rel 2]) /\
   (exists f, find_fact gen_facts "FibStrategyTree.FindNextHopsEnc"%string = Some f /\ body_of gen_facts f = [Acq 0 false; Rd 0; Rel 0]) /\
   List.length gen_facts >= 28.
 Proof. split; [eexists; split; reflexivity | split; [eexists; split; reflexivity | vm_compute; repeat constructor]]. Qed.
